@@ -88,7 +88,7 @@ CLAIMED = {
             "C20_order_independent, C20_split; map_workload_to_arch is run in separate processes with 1/4/16 workers, hook H1 permuting job arrival, PYTHONHASHSEED 0/1/12345, cold and warm cache_dir; sorted objective vectors and mapping structures must be identical. PARTIAL: process pools, pickling, OS scheduling and the disk cache are runtime behaviour outside any Gallina model.",
             "Coq kernel; hook H1; fix F12 (tie-break depended on job completion order) found by this check"),
     "C09": ("Coq proof (the verdict table, the Min/Max any/all rules and ComparisonResult.__or__ are sound pointwise for sound leaf answers; UNKNOWN always allowed; refuted witnesses for ceiling erasure, uniform Heaviside substitution and corner plugging) + the real comparator against brute-force evaluation on every integer point",
-            "C09_table_sound, C09_min_max_sound, C09_or_sound, C09_unknown_allowed, C09_ceiling_erasure_refuted, C09_heaviside_refuted, C09_unsound_leaf_refuted, C09_corner_needs_sign_constant_formula; the real geq_leq_zero / diff_geq_leq_zero are run on random formulas of the kinds the cost model emits over integer boxes and every non-UNKNOWN verdict is checked at every integer point (finite differences for derivative verdicts). Known findings F5 (ceiling erasure), F13 (one substitution for all Heaviside terms) and F15 (sympy's own relational evaluation under the symbols' assumptions is wrong for a constant plus a reciprocal of a product of symbols, and the comparator trusts it) and F16 (accelforge's cached replacement of sympy's Min/Max connectivity test mis-orients pairs, so f.doit() collapses Min/Max to the wrong argument). PARTIAL: sympy's function_range / relational evaluation are oracles.",
+            "C09_table_sound, C09_min_max_sound, C09_or_sound, C09_unknown_allowed, C09_ceiling_erasure_refuted, C09_heaviside_refuted, C09_unsound_leaf_refuted, C09_corner_needs_sign_constant_formula; the real geq_leq_zero / diff_geq_leq_zero are run on random formulas of the kinds the cost model emits over integer boxes and every non-UNKNOWN verdict is checked at every integer point (finite differences for derivative verdicts). Known findings F5 (ceiling erasure), F13 (one substitution for all Heaviside terms) and F15 (sympy's own relational evaluation under the symbols' assumptions is wrong for a constant plus a reciprocal of a product of symbols, and the comparator trusts it). Fix F16 (accelforge's cached replacement of sympy's Min/Max connectivity test mis-oriented pairs) found through this property's seeding. PARTIAL: sympy's function_range / relational evaluation are oracles.",
             "Coq kernel; formulas as value functions over the box; sympy trusted as leaf oracle and checked end to end"),
     "C12": ("Coq proof (pruning with constant columns skipped = the declarative mask over all objective / reservation columns with fused-loop tile shapes required equal, built on C11's verified mask; deleting agreed columns never changes the mask; column classification; order-faithful rounding gives the (1+t) bound) + differential correspondence with the real makepareto",
             "C12_zero_tol_exact, C12_const_cols, C12_classify, C12_tol_bound; the real makepareto is run on random pmapping tables (objective, reservation, fused-loop, n_iterations, tensor, per-Einsum and mapping columns, constant columns, shuffled order): at zero tolerance the kept index set equals the vm_compute-evaluated model and the declarative oracle, with tolerances every dropped row is (1+t)-dominated by a kept row with equal fused shapes; the rounding hypothesis is validated on numpy's log-grid rounding.",
